@@ -623,6 +623,9 @@ def run(ctx, tier):
     results += separator_refreshed(ctx)
     import c08
     results += c08.key_order(ctx, rule='C05.key-order')
+    import c16
+    results += c16.no_pow2_arith(ctx, rule='C05.no-pow2-arith')
+    results += commit.complete_writes(ctx, rule='C05.complete-writes')
     results += c02.reload_rule(ctx, rule='C05.reload')
     import c16
     results += c16.grow(ctx, rule='C05.grow')
